@@ -477,6 +477,140 @@ pub fn triangular(r: &mut Rng) -> String {
     s
 }
 
+/// Loops whose body contains a pointer-moving scan (`[>]`, `[<<]`, …) followed by loops and I/O at offsets
+/// that would name known cells had the scan not moved (in particular the enclosing loop's own condition
+/// offset): everything the optimiser knows relative to the block entry is void after the scan.
+pub fn scan_shift(r: &mut Rng) -> String {
+    let mut s = String::new();
+    // a few marked cells so that scans stop at different places
+    for _ in 0..2 + r.below(3) {
+        match r.below(4) {
+            0 => s.push_str(">"),
+            1 => s.push_str("+>"),
+            2 => s.push_str(",>"),
+            _ => s.push_str("++>>"),
+        }
+    }
+    let back = 1 + r.below(3) as usize;
+    for _ in 0..back {
+        s.push('<');
+    }
+    s.push('+');
+    s.push('[');
+    let step = 1 + r.below(2) as usize;
+    let dir = if r.chance(1, 2) { '>' } else { '<' };
+    let inv = if dir == '>' { '<' } else { '>' };
+    let dist = 1 + r.below(3) as usize;
+    // go to a cell, scan, come back by the nominal distance
+    for _ in 0..dist {
+        s.push(dir);
+    }
+    s.push('[');
+    for _ in 0..step {
+        s.push(dir);
+    }
+    s.push(']');
+    for _ in 0..dist {
+        s.push(inv);
+    }
+    // now "at" the loop condition offset, nominally
+    match r.below(5) {
+        0 => s.push_str("[.[-]]"),
+        1 => s.push_str("[>+<[-]]>[]<"),
+        2 => s.push_str("[-]+[.-]"),
+        3 => s.push_str(".[-]"),
+        _ => s.push_str("[,.[-]]"),
+    }
+    if r.chance(1, 2) {
+        s.push(inv);
+        s.push_str("[-]");
+        s.push(dir);
+    }
+    // make the enclosing loop end (mostly)
+    if r.chance(5, 6) {
+        s.push_str("[-]");
+    }
+    s.push(']');
+    match r.below(3) {
+        0 => s.push_str("+."),
+        1 => s.push_str("+[]"),
+        _ => s.push_str(">."),
+    }
+    s
+}
+
+/// Values computed BEFORE a loop and reused INSIDE it: a few cells `input ± c` (their values live in
+/// temporaries of the bytecode generator), then a top-level counting loop whose body copies those cells
+/// non-destructively into an accumulator, in a random order, and prints: the generator has to extend the live
+/// ranges of all of them to the loop's back edge.
+pub fn preloop_reuse(r: &mut Rng) -> String {
+    let k = 2 + r.below(3) as i64;
+    let mut s = String::new();
+    let mut pos: i64 = 0;
+    let go = |s: &mut String, pos: &mut i64, t: i64| {
+        while *pos < t {
+            s.push('>');
+            *pos += 1;
+        }
+        while *pos > t {
+            s.push('<');
+            *pos -= 1;
+        }
+    };
+    for j in 0..k {
+        go(&mut s, &mut pos, j);
+        s.push(',');
+        let c = if r.chance(1, 2) { '-' } else { '+' };
+        for _ in 0..r.below(3) {
+            s.push(c);
+        }
+    }
+    let cnt = k;
+    let acc = k + 1;
+    let tmp = k + 2;
+    go(&mut s, &mut pos, cnt);
+    s.push(',');
+    s.push_str("[-");
+    if r.chance(1, 2) {
+        s.push('.');
+    }
+    // a random order of (a subset of) the pre-loop cells
+    let mut order: Vec<i64> = (0..k).collect();
+    for i in (1..order.len()).rev() {
+        let j = r.below(i as u64 + 1) as usize;
+        order.swap(i, j);
+    }
+    let take = 2 + r.below(order.len() as u64 - 1) as usize;
+    for &j in order.iter().take(take) {
+        // acc += cell j (cell j restored through tmp)
+        go(&mut s, &mut pos, j);
+        s.push_str("[-");
+        go(&mut s, &mut pos, acc);
+        s.push('+');
+        go(&mut s, &mut pos, tmp);
+        s.push('+');
+        go(&mut s, &mut pos, j);
+        s.push(']');
+        go(&mut s, &mut pos, tmp);
+        s.push_str("[-");
+        go(&mut s, &mut pos, j);
+        s.push('+');
+        go(&mut s, &mut pos, tmp);
+        s.push(']');
+        if r.chance(1, 3) {
+            go(&mut s, &mut pos, acc);
+            s.push('.');
+        }
+    }
+    go(&mut s, &mut pos, acc);
+    s.push('.');
+    go(&mut s, &mut pos, cnt);
+    s.push(']');
+    go(&mut s, &mut pos, acc);
+    s.push('.');
+    s
+}
+
 pub fn roaming(r: &mut Rng) -> String {
     let mut s = String::new();
     let segs = 1 + r.below(5);
